@@ -682,6 +682,7 @@ def e2e(R, lean_ok):
             continue
         if real != "ok":
             continue
+        hist["no_nested_suffix"] = hist.get("no_nested_suffix", 0) + (1 if mo.get("nns") else 0)
         st = static_table(o["lib_rs"])
         if st != model_static(mo["table"]):
             dis.append({"program": name, "what": "generated insert sequence", "lib_rs": st, "model": model_static(mo["table"]), "rt": spec["rt"]})
